@@ -456,12 +456,16 @@ def PARAMS(nc, parameters, indent, is_instance_method):
     return ("\n" + inner + (",\n" + inner).join(texts) + "\n" + indent) if texts else ""
 
 
-@opaque(ann="set")
-def PARAMS_MARKERS(parameters, is_instance_method):
+def MARKERS_OF(ps):
     out = set()
-    for p in SHOWN(parameters, is_instance_method):
+    for p in ps:
         out = out | PARAM_MARKERS(p)
     return out
+
+
+@opaque(ann="set")
+def PARAMS_MARKERS(parameters, is_instance_method):
+    return MARKERS_OF(SHOWN(parameters, is_instance_method))
 
 
 @opaque(ann="set")
@@ -483,7 +487,6 @@ class create_parameter_string:
     modifies = ["self._current_todo_msgs", "self.module_imports", "self.classes_outside_package"]
     safety = False
     unfold = ["PARAMS", "PARAMS_MARKERS"]
-
     def requires(self, parameters, indentations, is_instance_method):
         # model invariant established by the analyser: a parameter with a default has a type
         return all((p.type is not None) or (not p.is_optional) for p in parameters)
@@ -559,11 +562,10 @@ def RESULT_ITEM(nc, r):
 
 def RESULTS(nc, results):
     """` -> name: T` for one result, ` -> (a: T, b: U)` for several, nothing for `-> None` or no results."""
-    typed = [r for r in results if r.type is not None]
-    if any(IS_NONE_RESULT(r) for r in typed):
-        # a None result suppresses the list: only results before the first None-typed one are rendered at all
+    if any(r.type is not None and IS_NONE_RESULT(r) for r in results):
+        # a None result suppresses the list
         return ""
-    items = [RESULT_ITEM(nc, r) for r in typed if RESULT_ITEM(nc, r)]
+    items = [RESULT_ITEM(nc, r) for r in results if r.type is not None and RESULT_ITEM(nc, r) != ""]
     if len(items) == 1:
         return " -> " + items[0]
     if len(items) > 1:
@@ -571,32 +573,57 @@ def RESULTS(nc, results):
     return ""
 
 
-def RESULT_MARKERS(results):
-    typed = [r for r in results if r.type is not None]
+def TYPE_MARKERS_BEFORE_NONE(results):
+    """Markers of the typed results in front of the first None-typed one."""
     out = set()
-    for r in typed:
-        if IS_NONE_RESULT(r):
-            return out
-        out = out | TF(TD(r.type))
-    if not [1 for r in typed if R(NamingConvention.PYTHON, TD(r.type))]:
-        out = out | {"result without type"}
+    for r in results:
+        if r.type is not None and IS_NONE_RESULT(r):
+            break
+        if r.type is not None:
+            out = out | TF(TD(r.type))
     return out
+
+
+def TYPE_MARKERS_OF(results):
+    out = set()
+    for r in results:
+        if r.type is not None:
+            out = out | TF(TD(r.type))
+    return out
+
+
+def RESULT_MARKERS(nc, results):
+    """Markers of the result types that are rendered at all (a None-typed result ends the list); a function whose
+    results render to nothing is flagged `result without type`."""
+    if any(r.type is not None and IS_NONE_RESULT(r) for r in results):
+        return TYPE_MARKERS_BEFORE_NONE(results)
+    if not [RESULT_ITEM(nc, r) for r in results if r.type is not None and RESULT_ITEM(nc, r) != ""]:
+        return TYPE_MARKERS_OF(results) | {"result without type"}
+    return TYPE_MARKERS_OF(results)
 
 
 @contract(_G + "_create_result_string", props=["C07", "C20", "C02", "C09"])
 class create_result_string:
-    deductive = False
     params = {"function_results": "list[Result]"}
     modifies = ["self._current_todo_msgs", "self.module_imports", "self.classes_outside_package"]
     safety = False
+    # results so far = rendered items of the processed prefix; no None-typed result among the processed ones
+    loop_invariants = {"for1": {
+        "shapes": {"results": "list[str]"},
+        "modifies": ["self._current_todo_msgs", "self.module_imports", "self.classes_outside_package"],
+        "inv": "results == [RESULT_ITEM(self.naming_convention, r) for r in function_results[:_k]"
+               " if r.type is not None and RESULT_ITEM(self.naming_convention, r) != '']"
+               " and not any(r.type is not None and IS_NONE_RESULT(r) for r in function_results[:_k])"
+               " and self._current_todo_msgs - FREE_MARKERS == "
+               "(old(self._current_todo_msgs) | TYPE_MARKERS_OF(function_results[:_k])) - FREE_MARKERS"}}
 
-    @clause(props=["C07", "C02", "C09"], mode="bounded")
+    @clause(props=["C07", "C02", "C09"])
     def ensures_render(self, function_results, result):
         return result == RESULTS(self.naming_convention, function_results)
 
-    @clause(props=["C20"], mode="bounded")
+    @clause(props=["C20"])
     def ensures_markers(self, function_results):
-        return self._current_todo_msgs - FREE_MARKERS == (old(self._current_todo_msgs) | RESULT_MARKERS(function_results)) - FREE_MARKERS
+        return self._current_todo_msgs - FREE_MARKERS == (old(self._current_todo_msgs) | RESULT_MARKERS(self.naming_convention, function_results)) - FREE_MARKERS
 
 
 # ------------------------------------------------------------------------------------------------ documentation comments (C13)
@@ -688,7 +715,7 @@ def FUNCTION_TEXT(gen, pending_before, function, indent, is_method):
         nm = ESC(CONV(tv.name, nc, False))
         if ((not is_method) or nm not in gen.class_generics) and tv.upper_bound is not None:
             markers = markers | TF(TD(tv.upper_bound))
-    markers = markers | RESULT_MARKERS(function.results)
+    markers = markers | RESULT_MARKERS(nc, function.results)
     ann = ANNOT(function.name, nc, False)
     return (TODO_BLOCK(markers, indent)
             + DOC_COMMENT(nc, function.docstring, indent, function, "function")
